@@ -835,14 +835,14 @@ def judge(chk: Check, cases: T.List[T.Dict[str, T.Any]], index: T.Dict[str, T.Di
         with scratch('c03-') as d:
             tf = d / 'cases.json'
             tf.write_text(json.dumps(part))
-            res = run_tlc(SPECS / 'ninja', 'TraceArgFidelity', env={'TRACE_FILE': str(tf)}, timeout=7200, heap='8g')
+            res = run_tlc(SPECS / 'ninja', 'TraceArgFidelity', env={'TRACE_FILE': str(tf)}, timeout=7200)
             bad = res.json_lines()
             if not res.clean:
                 raise MachineryError('TraceArgFidelity did not complete cleanly:\n' + res.stdout[-1500:])
             if res.distinct != 2 * len(part):
                 raise MachineryError(f'TraceArgFidelity judged {res.distinct // 2} of {len(part)} cases')
             if bad:
-                res1 = run_tlc(SPECS / 'ninja', 'TraceArgFidelity', env={'TRACE_FILE': str(tf)}, timeout=7200, workers=1, heap='8g')
+                res1 = run_tlc(SPECS / 'ninja', 'TraceArgFidelity', env={'TRACE_FILE': str(tf)}, timeout=7200, workers=1)
                 bad = res1.json_lines()
         chk.add_tlc(f'TraceArgFidelity[{label}#{part_no}]', res, model=False)
         chk.traces += len(part)
@@ -883,6 +883,7 @@ def report(chk: Check, v: T.Dict[str, T.Any], case: T.Dict[str, T.Any], ix: T.Di
     else:
         if not ix and kind == 'edge':
             ix = {'posname': 'writer', 'src': [uncp(a) for a in case.get('args', [])]}
+            detail['inputs'] = ix['src'][1:-1]
         pos = ix.get('posname', '?')
         src = ix.get('src') or []
         k = v.get('k', 0)
@@ -890,6 +891,8 @@ def report(chk: Check, v: T.Dict[str, T.Any], case: T.Dict[str, T.Any], ix: T.Di
             ch = v.get('ch', 0)
             c = NAMES.get(chr(ch), 'U+%04X' % ch) if ch else 'none'
             sig = f'{clause}@{pos}:ch={c}'
+        elif clause.startswith('Wrapper:') or clause in ('SentinelLost', 'SentinelOrder', 'EmptyCommandLine', 'RuntimeProcessCount'):
+            sig = f'{clause}@{pos}'
         elif clause in ('EnvDiffers', 'RuntimeEnv'):
             env = ix.get('env') or []
             val = env[k - 1][1] if 0 < k <= len(env) else ''
@@ -954,7 +957,7 @@ def main(chk: Check) -> None:
                 'every command position. Non-trivial = distinct (position, string) placements whose string needs quoting in '
                 'at least one layer (anything but [A-Za-z0-9_@%+=:,./-]+).')
     res = run_tlc(SPECS / 'ninja', 'ArgFidelity_MC', cfg_text=MC_CFG % n_mc, collect=['alphabet.json'], timeout=7200,
-                  allow_violation=False, heap='8g')
+                  allow_violation=False)
     chk.add_tlc(f'ArgFidelity_MC[MaxLen={n_mc}]', res)
     alphabet = json.loads(res.collected['alphabet.json'])
     chk.extra['alphabet'] = [chr(c) for c in alphabet]
@@ -1035,6 +1038,11 @@ def main(chk: Check) -> None:
         "a '|' inside a path of a build line is C04's finding and is not judged here (ninja_quote(.., True) is otherwise checked)",
         'response-file mode is forced with MESON_RSP_THRESHOLD=0; its level-3 validation is RspSplit vs the real gcc driver (-wrapper), not a compile',
         'static_library link_args are ignored by meson by design and are not a position',
+        'strings that start with a flag CompilerArgs de-duplicates or reorders (-D -I -L -l -U -W) are not placed raw in compile/link '
+        'positions (that is C13); the -D forms carry unique macro names',
+        'option-level -D forms skip macro bodies the preprocessor itself rejects (## at either end, /*), because the compiler sanity '
+        'check would fail before anything is generated',
+        'a configure-time refusal is judged a violation only for projects that differ from an accepted baseline by their argument strings',
     ]
 
 
